@@ -45,11 +45,17 @@ def assemble(nodes, E, G, A, J, Iy, Iz):
 def oracle_equilibrium(R, tier, seed):
     O = R.oracle("SpatialBeamAlone.vs-independent-frame"); O2 = R.oracle("SpatialBeamAlone.linearity-reciprocity")
     rng = gen.stable_rng(seed, "c10")
-    for it in range(6 if tier == "quick" else 24):
-        model = "tube" if it % 3 != 2 else "wingbox"
+    nit = 6 if tier == "quick" else 24
+    for it in range(nit + (2 if tier == "quick" else 6)):
+        steep = it >= nit
+        model = "tube" if (it % 3 != 2 and not steep) else "wingbox"
         kind = ["left", "full", "right"][it % 3]
         ny = int(rng.choice([2, 3, 4, 5])) if kind != "full" else int(rng.choice([3, 5]))
         mesh = gen.rand_mesh(rng, 2, ny, kind, offset=False)
+        if steep:
+            # steeply swept spar (65-78 degrees: element direction cosine along x up to 0.98) with a wing-box section
+            # (Iy != Iz): the element frame is built from the element axis and the GLOBAL x axis whatever the sweep
+            mesh[:, :, 0] += np.abs(mesh[:, :, 1]) * np.tan(np.deg2rad(float(rng.uniform(65, 78))))
         if kind == "full" and it % 2 == 1:
             # a full-span surface need not straddle y = 0 (tail off the centreline, translated wing): the clamped node is the
             # MIDDLE node whatever its y (a seeded change that clamped the node nearest y = 0 was missed without this)
@@ -75,7 +81,7 @@ def oracle_equilibrium(R, tier, seed):
         uf = np.linalg.solve(K[np.ix_(free, free)], f[free])
         if np.abs(u[free] - uf).max() > 1e-6 * np.abs(uf).max(): bad["displacements-differ"] = float(np.abs(u[free] - uf).max() / np.abs(uf).max())
         O["cases"] += 1
-        desc = {"model": model, "kind": kind, "ny": ny, "seed": seed, "it": it}
+        desc = {"model": model, "kind": kind, "ny": ny, "seed": seed, "it": it, "steeply_swept": steep}
         if bad: _fail(O, "C10:SpatialBeamAlone:" + sorted(bad)[0], desc, errors=bad, nodes=nodes.tolist(), loads=loads.tolist())
         else: O["ok"] += 1
         # linearity and reciprocity
